@@ -302,55 +302,103 @@ def nondet_scan(repo, funcs):
 
 
 def atomic_write_scan(repo, qualname="prov.model.ProvDocument.serialize"):
-    """the write-to-path protocol of ProvDocument.serialize, checked on its AST (C17):
-    R1 the serializer writes to a stream opened (os.fdopen) on a tempfile.mkstemp() file;
-    R2 the only calls that receive the destination (names path / location / destination) are urlparse(location)
-       and the final shutil.move(name, path) / shutil.copy(name, path) - nothing else opens, removes, renames or
-       rewrites the destination;
-    R3 `path` is only assigned by unpacking urlparse(location) and by `path = location`;
+    """the write-to-path protocol of ProvDocument.serialize, checked on its AST (C17), independent of how the locals
+    are called:  T = the name bound to the path returned by tempfile.mkstemp();  D = the parameter `destination` and
+    every name assigned from a D name or unpacked from urlparse(<D name>).
+    R1 the function calls tempfile.mkstemp(), os.fdopen() and shutil.move/copy(T, D);
+    R2 a D name is passed only to urlparse, to read-only tests (os.path.*, hasattr, isinstance, str, len, print) and
+       as the target of that final shutil.move/copy(T, D); os.remove/unlink/rename/replace only ever get T;
+    R3 a D name is assigned only from another D name or by unpacking urlparse(<D name>);
     R4 the function never calls open().
     -> list of (rule, line, text) that break a rule"""
     fi = repo.funcs.get(qualname)
     if fi is None:
         return [("R0", 0, "function %s not found" % qualname)]
-    bad = []
-    dest_names = {"path", "location", "destination"}
-    has_mkstemp = has_fdopen = has_move = False
+    # the file-name branch: the else-part of `if hasattr(destination, "write")` (the other branches handle a missing
+    # destination and a stream object, where `destination` is not a file name)
+    branch = None
     for n in ast.walk(fi.node):
+        if isinstance(n, ast.If) and isinstance(n.test, ast.Call) and ast.unparse(n.test.func) == "hasattr" and n.orelse \
+                and isinstance(n.test.args[0], ast.Name) and n.test.args[0].id == "destination":
+            branch = ast.Module(body=list(n.orelse), type_ignores=[])
+    if branch is None:
+        return [("R0", fi.node.lineno, "the branch for file-name destinations was not recognised (if hasattr(destination, 'write'): ... else: ...)")]
+    for n in ast.walk(fi.node):
+        if isinstance(n, ast.Call) and ast.unparse(n.func) in ("open", "io.open", "builtins.open"):
+            return [("R4", n.lineno, ast.unparse(n)[:100])] + [x for x in atomic_write_scan_branch(branch) if x[0] != "R4"]
+    return atomic_write_scan_branch(branch)
+
+
+def atomic_write_scan_branch(node):
+    tmp, dest = set(), {"destination"}
+
+    def is_urlparse_of_dest(v):
+        return (isinstance(v, ast.Call) and ast.unparse(v.func).split(".")[-1] == "urlparse" and len(v.args) == 1
+                and isinstance(v.args[0], ast.Name) and v.args[0].id in dest)
+
+    def derived(v):
+        """an expression that only selects from / renames a destination value"""
+        if isinstance(v, ast.Name):
+            return v.id in dest
+        if is_urlparse_of_dest(v):
+            return True
+        if isinstance(v, (ast.Subscript, ast.Attribute)):
+            return derived(v.value)
+        if isinstance(v, (ast.Tuple, ast.List)) and v.elts:
+            return all(derived(x) for x in v.elts)
+        return False
+
+    changed = True
+    while changed:
+        changed = False
+        for n in ast.walk(node):
+            if not isinstance(n, ast.Assign):
+                continue
+            v = n.value
+            for t in n.targets:
+                if isinstance(v, ast.Call) and ast.unparse(v.func) == "tempfile.mkstemp" and isinstance(t, (ast.Tuple, ast.List)) and len(t.elts) == 2 \
+                        and isinstance(t.elts[1], ast.Name) and t.elts[1].id not in tmp:
+                    tmp.add(t.elts[1].id)
+                    changed = True
+                names = [x.id for x in ast.walk(t) if isinstance(x, ast.Name)]
+                if derived(v):
+                    for nm in names:
+                        if nm not in dest and not nm.startswith("_"):
+                            dest.add(nm)
+                            changed = True
+    bad = []
+    has_mkstemp = has_fdopen = has_move = False
+    READ_ONLY = ("hasattr", "isinstance", "str", "len", "print", "os.fspath", "repr")
+    for n in ast.walk(node):
         if isinstance(n, ast.Call):
             fn = ast.unparse(n.func)
-            argnames = {a.id for a in n.args if isinstance(a, ast.Name)} | {kw.value.id for kw in n.keywords if isinstance(kw.value, ast.Name)}
-            inner = {x.id for a in n.args for x in ast.walk(a) if isinstance(x, ast.Name)} | {x.id for kw in n.keywords for x in ast.walk(kw.value) if isinstance(x, ast.Name)}
+            inner = {x.id for a in list(n.args) + [kw.value for kw in n.keywords] for x in ast.walk(a) if isinstance(x, ast.Name)}
             if fn == "tempfile.mkstemp":
                 has_mkstemp = True
             if fn == "os.fdopen":
                 has_fdopen = True
             if fn in ("open", "io.open", "builtins.open"):
                 bad.append(("R4", n.lineno, ast.unparse(n)[:100]))
-            if inner & dest_names:
-                ok = (fn == "urlparse" and argnames <= {"location"}) \
-                    or (fn in ("shutil.move", "shutil.copy") and len(n.args) == 2 and isinstance(n.args[1], ast.Name) and n.args[1].id == "path"
-                        and isinstance(n.args[0], ast.Name) and n.args[0].id == "name") \
-                    or (fn == "hasattr" and argnames <= {"destination"}) \
-                    or fn.startswith("os.path.") or fn in ("print", "isinstance", "str", "os.fspath", "len")      # read-only uses
-                if fn in ("shutil.move", "shutil.copy") and ok:
-                    has_move = True
+            is_final_move = (fn in ("shutil.move", "shutil.copy") and len(n.args) == 2 and isinstance(n.args[0], ast.Name) and n.args[0].id in tmp
+                             and isinstance(n.args[1], ast.Name) and n.args[1].id in dest)
+            if is_final_move:
+                has_move = True
+            if inner & dest:
+                ok = is_final_move or fn.split(".")[-1] == "urlparse" or fn.startswith("os.path.") or fn in READ_ONLY
                 if not ok:
                     bad.append(("R2", n.lineno, ast.unparse(n)[:100]))
+            if fn in ("os.remove", "os.unlink", "os.rename", "os.replace", "shutil.rmtree") and not (
+                    len(n.args) >= 1 and all(isinstance(a_, ast.Name) and a_.id in tmp for a_ in n.args[:1]) and not (inner & dest)):
+                bad.append(("R2", n.lineno, ast.unparse(n)[:100]))
         if isinstance(n, ast.Assign):
+            v = n.value
             for t in n.targets:
                 names = [x.id for x in ast.walk(t) if isinstance(x, ast.Name)]
-                if "path" in names:
-                    v = ast.unparse(n.value)
-                    if not (v == "urlparse(location)" or (v == "location" and names == ["path"])):
-                        bad.append(("R3", n.lineno, ast.unparse(n)[:100]))
+                if set(names) & dest and not derived(v):
+                    bad.append(("R3", n.lineno, ast.unparse(n)[:100]))
     if not (has_mkstemp and has_fdopen and has_move):
-        bad.append(("R1", fi.node.lineno, "mkstemp/fdopen/move protocol not found (mkstemp=%s fdopen=%s move=%s)" % (has_mkstemp, has_fdopen, has_move)))
-    # a removal of anything but the temporary file
-    for n in ast.walk(fi.node):
-        if isinstance(n, ast.Call) and ast.unparse(n.func) in ("os.remove", "os.unlink", "os.rename", "os.replace"):
-            if not (len(n.args) == 1 and isinstance(n.args[0], ast.Name) and n.args[0].id == "name"):
-                bad.append(("R2", n.lineno, ast.unparse(n)[:100]))
+        bad.append(("R1", node.body[0].lineno if node.body else 0, "mkstemp/fdopen/move protocol not found (mkstemp=%s fdopen=%s move(T, D)=%s; T=%s D=%s)" % (
+            has_mkstemp, has_fdopen, has_move, sorted(tmp), sorted(dest))))
     return sorted(set(bad))
 
 
